@@ -126,3 +126,50 @@ def structure(node):
     except AttributeError:
         return (type(node).__name__, node.type, node.value, node.prefix, node.start_pos)
     return (type(node).__name__, node.type, tuple(structure(c) for c in ch))
+
+
+def ref_positions(root, text):
+    """Independent positions of every leaf: {id(leaf): (prefix_start, start, end)} from walking the text;
+    zero-width indentation error leaves get the placement rule (start = end = start of the next
+    text-bearing leaf) and prefix_start None.  Returns (positions, final_position, problem_or_None)."""
+    pos = (1, 0)
+    off = 0
+    out = {}
+    pending = []
+    for l in leaves(root):
+        if is_zero_width(l):
+            pending.append(l)
+            continue
+        p_start = pos
+        s = advance(pos, l.prefix, off == 0)
+        e = advance(s, l.value, off == 0 and not l.prefix)
+        for z in pending:
+            out[id(z)] = (None, s, s)
+        pending = []
+        out[id(l)] = (p_start, s, e)
+        off += len(l.prefix) + len(l.value)
+        pos = e
+    problem = 'zero-width leaf after the last text-bearing leaf' if pending else None
+    for z in pending:
+        out[id(z)] = (None, pos, pos)
+    return out, pos, problem
+
+
+def text_positions(text):
+    """Every (line, col) that some offset 0..len(text) of the text maps to, in order, de-duplicated."""
+    out = []
+    pos = (1, 0)
+    out.append(pos)
+    i = 0
+    n = len(text)
+    while i < n:
+        c = text[i]
+        if c == '\r' and i + 1 < n and text[i + 1] == '\n':
+            step = 2
+        else:
+            step = 1
+        pos = advance(pos, text[i:i + step], i == 0)
+        i += step
+        if out[-1] != pos:
+            out.append(pos)
+    return out
